@@ -4,6 +4,8 @@ package main
 
 import (
 	"fmt"
+	"os"
+	"path/filepath"
 	"strings"
 
 	"github.com/semihalev/sdns/internal/verif/vlib"
@@ -255,10 +257,43 @@ func genL3Case(r *vlib.R, emit func(string), p l3Plan) int {
 	return cnt
 }
 
+// sigCnameLoop: see notes/C12.md "Candidate finding". Alias loops of 30 and more names
+// keep an unmetered (firewall off / shadow) resolver busy for minutes. Until the lead has
+// recorded that signature in known_findings.jsonl the generator stays below that length for
+// unmetered CNAME loops (the witness is corpus-ready in harness/c12/witness_cname_loop.ops);
+// once it is recorded the region is explored again (and reported as KNOWN-FINDING).
+const sigCnameLoop = "l3/query/not-within-query-timeout/cname-loop-unmetered"
+
+func knownFinding(sig string) bool {
+	dir := os.Getenv("VERIF_DIR")
+	if dir == "" {
+		dir = "/verif"
+	}
+	b, err := os.ReadFile(filepath.Join(dir, "known_findings.jsonl"))
+	if err != nil {
+		return false
+	}
+	for _, ln := range strings.Split(string(b), "\n") {
+		if strings.Contains(ln, `"C12"`) && strings.Contains(ln, sig) && strings.Contains(ln, `"known"`) {
+			return true
+		}
+	}
+	return false
+}
+
 func planL3(r *vlib.R, fam string, v int, mode string, qmin int) l3Plan {
 	p := l3Plan{fam: fam, v: v, mode: mode, qmin: qmin, maxdepth: 30}
 	big := r.Chance(1, 4)
 	p.n = sizeFor(r, fam, big)
+	if fam == "cname" && v == 0 && mode != "enforce" {
+		if knownFinding(sigCnameLoop) {
+			if big && r.Chance(1, 2) {
+				p.n = vlib.Pick(r, []int{30, 31, 36, 48})
+			}
+		} else if p.n > 29 {
+			p.n = r.Range(12, 29)
+		}
+	}
 	switch mode {
 	case "enforce":
 		switch r.Intn(4) {
@@ -295,6 +330,28 @@ func gen(r *vlib.R, n int, tier string, emit func(string)) {
 	for _, m := range []string{"enforce", "shadow", "off"} {
 		for _, c := range []int{0, 1, 5, maxQ - 1, maxQ, maxQ + 1} {
 			emitc(fmt.Sprintf("sub nest %s %d %d %d", m, c, dInt, maxQ))
+		}
+	}
+	// anchors: one hand-picked case per mechanism (sizes that cross the default budgets, the
+	// TCP fallback, the depth caps seen from outside)
+	for _, a := range [][]string{
+		{"l3 new lame 2 3 enforce 4 0 0 0 30", "l3 query t f t", "l3 again 3"},
+		{"l3 new lame 2 4 enforce 3 0 0 0 30", "l3 query t f t"},
+		{"l3 new lame 3 3 shadow 0 0 0 5 30", "l3 query f f t"},
+		{"l3 new dname 2 0 shadow 0 0 0 0 30", "l3 query t f t"},
+		{"l3 new dname 3 0 shadow 0 0 0 5 30", "l3 query f f t"},
+		{"l3 new deep 12 0 shadow 0 0 0 0 6", "l3 query t f t"},
+		{"l3 new deep 36 0 off 0 0 0 5 30", "l3 query t f f"},
+		{"l3 new hugens 60 0 enforce 0 0 0 0 30", "l3 query t f t", "l3 again 4"},
+		{"l3 new hugens 150 1 shadow 0 0 0 5 30", "l3 query t f t"},
+		{"l3 new cname 30 1 enforce 0 0 0 5 30", "l3 query t f t", "l3 again 7"},
+		{"l3 new cname 36 0 enforce 0 0 0 0 30", "l3 query f f t", "l3 again 8"},
+		{"l3 new nscycle 6 0 enforce 0 0 0 5 30", "l3 query t f t", "l3 again 2"},
+		{"l3 new manysig 12 0 enforce 0 0 0 0 30", "l3 query t t t", "l3 again 9"},
+		{"l3 new manysig 6 1 shadow 0 0 2 5 30", "l3 query t t t"},
+	} {
+		for _, op := range a {
+			emitc(op)
 		}
 	}
 	// one system-level case per family × mode × qmin (variant and sizes from the seed)
@@ -368,4 +425,6 @@ func gen(r *vlib.R, n int, tier string, emit func(string)) {
 	}
 	curL3.close()
 	curL3 = nil
+	child.kill()
+	child = nil
 }
